@@ -991,6 +991,11 @@ class Engine:
         if restartContext in [experiment.model.codes.restartContexts["RestartContextRestartPossible"],
                               experiment.model.codes.restartContexts["RestartContextHookNotAvailable"]]:
             try:
+                # The owner of this engine may have been asked to finish() while the restart hook was running (e.g. the
+                # controller was killed, or a sibling component failed): it has shut this engine down and considers it
+                # final. Do not launch a task that nobody would ever stop.
+                if self._shutdown:
+                    raise experiment.runtime.errors.CannotRestartShutdownEngineError(self.job.reference)
                 #Reset ivars that determine isAlive (so the retval of isAlive is True)
                 self.process = None
                 self.lastExecution = True
